@@ -1,0 +1,83 @@
+//go:build verif
+
+// Contracts for the verification machinery in /verif (comment-only; compiled only with -tags verif).
+
+package dochandler
+
+// ---- C15 / C04: intake leaves no trace when an operation is refused or cannot be queued ----
+//
+//@ ghost uStored int
+//@ ghost uDeleted int
+//@ ghost lastPutOp *operation.AnchoredOperation
+//@ ghost lastDelOp *operation.AnchoredOperation
+//@ ghost added int
+//@ ghost lastAddedSuffix string
+//@ ghost lastAddedVersion uint64
+//@ ghost lastResolved *protocol.ResolutionModel
+//
+//@ iface unpublishedOperationStore.Put
+//@   modifies uStored, lastPutOp
+//@   ensures (result == nil ==> uStored == old(uStored) + 1 && lastPutOp == op) && (result != nil ==> uStored == old(uStored) && lastPutOp == old(lastPutOp))
+//@ iface unpublishedOperationStore.Delete
+//@   modifies uDeleted, lastDelOp
+//@   ensures uDeleted == old(uDeleted) + 1 && lastDelOp == op
+//@ iface batchWriter.Add
+//@   modifies added, lastAddedSuffix, lastAddedVersion
+//@   requires operation != nil
+//@   ensures (result == nil ==> added == old(added) + 1 && lastAddedSuffix == operation.UniqueSuffix && lastAddedVersion == protocolVersion) && (result != nil ==> added == old(added))
+//@ iface operationProcessor.Resolve
+//@   results rm, err
+//@   modifies lastResolved
+//@   ensures lastResolved == rm && (err == nil ==> rm != nil)
+//@ iface operationDecorator.Decorate
+//@   results out, err
+//@   ensures err == nil ==> out != nil
+//@ iface metricsProvider.*
+//
+// the default decorator refuses every non-create operation on a deactivated DID
+//@ func (*defaultOperationDecorator).Decorate
+//@   requires d != nil && d.processor != nil && op != nil
+//@   ensures err == nil && old(op.Type) != operation.TypeCreate ==> lastResolved != nil && !lastResolved.Deactivated
+//@   ensures err == nil ==> r0 == op
+//@   modifies lastResolved, op.AnchorOrigin
+//
+//@ spec dhOK(r *DocumentHandler) bool { r != nil && r.protocol != nil && r.decorator != nil && r.writer != nil && r.unpublishedOperationStore != nil && r.metrics != nil }
+//
+//@ func contains
+//@ func (*DocumentHandler).getUnpublishedOperation
+//@   requires dhOK(r) && op != nil && pv != nil
+//@   ensures result != nil ==> fresh(result) && result.UniqueSuffix == op.UniqueSuffix && result.Type == op.Type && result.OperationRequest == op.OperationRequest && result.AnchorOrigin == op.AnchorOrigin
+//@ func (*DocumentHandler).addOperationToUnpublishedOpsStore
+//@   requires dhOK(r)
+//@   ensures unpublishedOp == nil ==> result == nil && uStored == old(uStored)
+//@   ensures unpublishedOp != nil ==> (result == nil ==> uStored == old(uStored) + 1 && lastPutOp == unpublishedOp) && (result != nil ==> uStored == old(uStored))
+//@   modifies uStored, lastPutOp
+//@ func (*DocumentHandler).deleteOperationFromUnpublishedOpsStore
+//@   requires dhOK(r)
+//@   ensures unpublishedOp == nil ==> uDeleted == old(uDeleted)
+//@   ensures unpublishedOp != nil ==> uDeleted == old(uDeleted) + 1 && lastDelOp == unpublishedOp
+//@   modifies uDeleted, lastDelOp
+//@ func (*DocumentHandler).addToBatch
+//@   requires dhOK(r) && op != nil
+//@   ensures (result == nil ==> added == old(added) + 1 && lastAddedSuffix == op.UniqueSuffix && lastAddedVersion == versionTime) && (result != nil ==> added == old(added))
+//@   modifies added, lastAddedSuffix, lastAddedVersion
+//@ func (*DocumentHandler).validateOperation
+//@   requires dhOK(r) && op != nil && pv != nil
+//@ func (*DocumentHandler).getCreateResponse
+//@   requires dhOK(r) && op != nil && pv != nil
+//@   closure 1
+//@     requires r != nil && r.metrics != nil
+//@   end
+//
+//@ func (*DocumentHandler).ProcessOperation
+//@   closure 1
+//@     requires r != nil && r.metrics != nil
+//@   end
+//@   requires dhOK(r)
+//@   results res, err
+//@   ensures added <= old(added) + 1
+//@   ensures err == nil ==> added == old(added) + 1
+//@   ensures added == old(added) ==> err != nil
+//@   ensures added == old(added) ==> uStored == old(uStored) || (uStored == old(uStored) + 1 && uDeleted == old(uDeleted) + 1 && lastDelOp == lastPutOp)
+//@   ensures added == old(added) + 1 ==> uStored <= old(uStored) + 1 && uDeleted == old(uDeleted)
+//@   modifies uStored, uDeleted, lastPutOp, lastDelOp, added, lastAddedSuffix, lastAddedVersion, lastResolved
